@@ -292,6 +292,32 @@ def apply(mid: str, m: dict, i: int):
     if mid == "instance_id_clash":
         S.append(dict(type="xml-external", name="L"))
         return ["L"]
+    if mid.startswith("audit_"):
+        params, idents = {
+            "audit_bad_track_changes": ("track-changes=maybe", ["track-changes"]),
+            "audit_bad_identify_user": ("identify-user=maybe", ["identify-user"]),
+            "audit_bad_reasons": ("track-changes-reasons=always", ["track-changes-reasons"]),
+            "audit_bad_location_priority": ("location-priority=fast location-min-interval=1 location-max-age=2", ["location-priority"]),
+            "audit_location_nan": ("location-priority=balanced location-min-interval=soon location-max-age=5", ["location-min-interval"]),
+            "audit_location_negative": ("location-priority=balanced location-min-interval=1 location-max-age=-5", ["location-max-age"]),
+            "audit_location_age_lt_interval": ("location-priority=balanced location-min-interval=10 location-max-age=5", ["location-max-age"]),
+            "audit_location_incomplete": ("location-priority=balanced", []),
+        }[mid]
+        S.append(dict(type="audit", parameters=params))
+        return idents
+    if mid == "external_instance_twice":
+        S.extend([dict(type="begin group", name="xg1", label="a"), dict(type="xml-external", name="dupx"), dict(type="text", name="xq1", label="x"), dict(type="end group"),
+                  dict(type="begin group", name="xg2", label="a"), dict(type="xml-external", name="dupx"), dict(type="text", name="xq2", label="x"), dict(type="end group")])
+        return ["dupx"]
+    if mid == "search_list_shared":
+        # this select uses search() while another select reads the same list plainly
+        lst = r["type"].split()[1]
+        r["appearance"] = "search('sfile')"
+        S.append(dict(type=f"select_one {lst}", name="plain_reader", label="PR"))
+        return [r["name"], lst]
+    if mid == "loop_without_list":
+        S.extend([dict(type="begin loop", name="lp", label="LP"), dict(type="text", name="lq", label="x"), dict(type="end loop")])
+        return []
     if mid == "entity_two_rows":
         m["extra_sheets"].append({"name": "entities", "header": ["dataset", "label"], "rows": [["e1", "a"], ["e2", "b"]]})
         return []
